@@ -18,18 +18,18 @@ META = {
 
 def obligations(tier, seed):
     t = 400 if tier == 'quick' else 2400
-    variants = [(0, 0), (1, 0), (0, 1), (2, 0), (0, 2), (3, 1)] if tier == 'quick' else [(c, d) for c in range(4) for d in range(4)]
+    variants = [(1, 0), (0, 1), (2, 0), (3, 1)] if tier == 'quick' else [(c, d) for c in range(4) for d in range(4)]
     return [
         dict(name='C07b.fold_int', fn='fold_int', timeout=t, shards=[['op == %d' % o, 'a_bool == %s' % ab] for o in range(fk.N_OPS) for ab in (True, False)],
              bounds='all 0 <= a,b < 10^6, 13 operators, int/bool operands'),
         dict(name='C07b.fold_int.twin', fn='fold_int_twin', timeout=t, shards=[[]], expect='refuted', bounds='reachability twin: something is folded'),
         dict(name='C07.fold_pairs', fn='fold_pairs', timeout=t,
-             shards=[['op == %d' % o] + ['(vc, vd) in %r' % (variants,)] for o in range(fk.N_OPS)],
+             shards=[['op == %d' % o] + ['(vc, vd) in %r' % (variants,)] + ([] if tier == 'thorough' else ['ia < 12 and ib < 12']) for o in range(fk.N_OPS)],
              bounds='%d^2 operand pairs x %d type-variant pairs x 13 operators' % (fk.N_VALS, len(variants))),
         dict(name='C07c.fold_nested', fn='fold_nested', timeout=t,
-             shards=[['op2 == %d' % o, 'right_nested == %s' % r] + ([] if tier == 'thorough' else ['ctx in (0, 1, 3, 4, 5, 11)', 'ia < 8 and ib < 8 and ic in (1, 3, 7, 9, 13)'])
+             shards=[['op2 == %d' % o, 'right_nested == %s' % r] + ([] if tier == 'thorough' else ['ctx in (0, 1, 3, 4)', 'op1 in (0, 1, 2, 3)', 'ia in (1, 3, 9) and ib in (2, 7, 12) and ic in (1, 3, 13)'])
                      for o in range(fk.N_OPS) for r in (True, False)],
-             bounds='quick: 6 contexts, 8x8x5 operands; thorough: %d contexts, all %d^3 operand triples' % (fk.N_CTX, fk.N_VALS)),
+             bounds='quick: 4 contexts, 4 inner operators, 3x3x3 operands; thorough: %d contexts, all %d^3 operand triples' % (fk.N_CTX, fk.N_VALS)),
         dict(name='C07.number_print', fn='number_print', timeout=t, shards=[['neg == %s' % n] for n in (True, False)],
              bounds='%d constants x sign x %d contexts' % (fk.N_NUMS, fk.N_CTX)),
     ]
